@@ -35,12 +35,15 @@ class Node(ABC):
     def __init__(self, token: TokenT) -> None:
         self.token = token
 
-        self.blank = True
+        self.blank = False
         """If True, indicates that the node, when rendered, produces no output text
-        or only whitespace.
-        
-        The output node (`{{ something }}`) and echo tag are exception. Even if they
-        evaluate to an empty or blank string, they are not considered "blank".
+        or only whitespace. Blocks containing only blank nodes are not output when
+        `Environment.suppress_blank_control_flow_blocks` is set.
+
+        The default is `False`. Nodes that never write to the output buffer, like
+        `assign`, `capture` and comments, set it to `True`, and block nodes derive
+        it from their children. The output node (`{{ something }}`) and echo tag
+        are never "blank", even if they evaluate to an empty or blank string.
         """
 
     def render(self, context: RenderContext, buffer: TextIO) -> int:
